@@ -17,6 +17,9 @@ import (
 	"encoding/hex"
 	"fmt"
 	"strings"
+
+	"github.com/klauspost/compress/zstd"
+	"github.com/ulikunitz/xz"
 )
 
 // ---------------------------------------------------------------- Case
@@ -42,6 +45,17 @@ type Case struct {
 	RetryLimit    int  `json:"retry_limit,omitempty"`
 	ReqConcurrent int  `json:"req_concurrent,omitempty"` // 0 = client default
 	Redirect      bool `json:"redirect,omitempty"`       // blob GET answered by a redirect to a storage host
+	RedirectStatus int         `json:"redirect_status,omitempty"` // 0 = 307
+	External       int         `json:"external,omitempty"`        // k > 0: the registry does not hold the blob; the descriptor carries k URLs on an external host, the last one serves the stream (foreign layer fall-back)
+	Mirror         *Corruption `json:"mirror,omitempty"`          // a mirror of the registry is configured and serves this corruption of the content (resumes may be stitched across hosts)
+	// descriptor / reference / construction variants
+	MediaType string `json:"media_type,omitempty"` // descriptor media type ("" = none, as regctl blob get passes it)
+	RefForm   int    `json:"ref_form,omitempty"`   // 0 repository only, 1 :tag, 2 @digest, 3 :tag@digest
+	ViaResp   bool   `json:"via_resp,omitempty"`   // entry reader: blob.WithResp(&http.Response{Body, Header}) instead of WithReader
+	TarDirect bool   `json:"tar_direct,omitempty"` // entry reader, tar modes: blob.NewTarReader(WithReader, WithDesc) instead of BReader.ToTarReader
+	// context state and seek noise
+	Cancel  int  `json:"cancel,omitempty"`   // 0 live context; 1 cancelled before the blob is requested; 2 cancelled before the first rewind (or after the only pass); k >= 3 cancelled after k-3 Read calls of pass 0 (loop mode)
+	BadSeek bool `json:"bad_seek,omitempty"` // loop mode: Seek(5, SeekStart) and Seek(-1, SeekEnd) are attempted before the second Read (documented to fail without effect)
 }
 
 // Content describes the intended blob content (expanded deterministically).
@@ -50,6 +64,7 @@ type Content struct {
 	N     int       `json:"n,omitempty"`
 	Seed  int       `json:"seed,omitempty"`
 	Gzip  bool      `json:"gzip,omitempty"`
+	Comp  string    `json:"comp,omitempty"` // tar: "" (see Gzip) | zstd | xz
 	Files []TarFile `json:"files,omitempty"`
 }
 
@@ -69,8 +84,8 @@ type Corruption struct {
 
 // Get prescribes the answer to one GET of the blob (entry reg).
 type Get struct {
-	Kind   string `json:"kind"`             // ok | status | full200 | full200-cr | wrong-off | wrong-bytes | other-blob | no-cr | 416
-	Status int    `json:"status,omitempty"` // kind status
+	Kind   string `json:"kind"`             // ok | status | full200 | full200-cr | wrong-off | wrong-bytes | other-blob | no-cr | 416 | alt2xx
+	Status int    `json:"status,omitempty"` // kind status; kind alt2xx: a conforming answer sent with this 2xx status instead of 200/206
 	Off    int    `json:"off,omitempty"`    // wrong-off: offset delta; wrong-bytes: position of the flipped byte
 	LieCR  bool   `json:"lie_cr,omitempty"` // wrong-off: Content-Range claims the requested offset
 	Fault  string `json:"fault,omitempty"`  // regmodel fault kind applied to this response: truncate | truncate-clean | stall | lie-cl | no-cl
@@ -90,6 +105,9 @@ type Pass struct {
 	// entries reader and reg: the headers (reader: blob.WithHeader) state the digest and length of the
 	// stream that is actually served instead of the requested digest (a source vouching for its own bytes)
 	HdrOfServed bool `json:"hdr_of_served,omitempty"`
+	// HdrKind (takes precedence when set): none = no digest header | malformed = unparsable digest header |
+	// otheralgo = digest of the served stream under the other algorithm | served | req
+	HdrKind string `json:"hdr_kind,omitempty"`
 	// entry reg only
 	Gets []Get `json:"gets,omitempty"` // answers to the successive GETs of this pass (further GETs are answered correctly)
 	// entry ocidir only
@@ -177,7 +195,15 @@ func genContent(ch chooser, mode string) Content {
 	case 1:
 		return Content{Kind: "zeros", N: []int{1024, 0, 1, 511, 512, 1536, 4608, 10240}[ch.Int(0, 7, "zeros")]}
 	case 2:
-		c := Content{Kind: "tar", Seed: ch.Int(0, 50, "cseed"), Gzip: chance(ch, "gzip", 1, 3)}
+		c := Content{Kind: "tar", Seed: ch.Int(0, 50, "cseed")}
+		switch weighted(ch, "comp", 56, 30, 7, 7) {
+		case 1:
+			c.Gzip = true
+		case 2:
+			c.Comp = "zstd"
+		case 3:
+			c.Comp = "xz"
+		}
 		n := ch.Int(0, 3, "nfiles")
 		for i := 0; i < n; i++ {
 			c.Files = append(c.Files, TarFile{Name: fmt.Sprintf("d%d/f%d.txt", i%2, i), Size: []int{0, 1, 10, 511, 512, 700}[ch.Int(0, 5, "fsize")]})
@@ -269,19 +295,19 @@ func genChunks(ch chooser, n int) []int {
 	return out
 }
 
-var getKinds = []string{"ok", "status", "full200", "full200-cr", "wrong-off", "wrong-bytes", "other-blob", "no-cr", "416"}
+var getKinds = []string{"ok", "status", "full200", "full200-cr", "wrong-off", "wrong-bytes", "other-blob", "no-cr", "416", "alt2xx"}
 
 // genGet draws the answer to one GET. profile: 0 = first GET of a pass
 // (mostly conforming), 1 = free form, 2 = answer to a range resume (hostile
 // kinds are frequent).
 func genGet(ch chooser, profile int, n int) Get {
 	var g Get
-	wk := []int{55, 12, 5, 3, 8, 7, 4, 3, 3}
+	wk := []int{55, 12, 5, 3, 8, 7, 4, 3, 3, 3}
 	switch profile {
 	case 0:
-		wk = []int{80, 12, 1, 1, 2, 2, 2, 0, 0}
+		wk = []int{78, 12, 1, 1, 2, 2, 2, 0, 0, 4}
 	case 2:
-		wk = []int{36, 11, 8, 6, 12, 12, 5, 5, 5}
+		wk = []int{36, 11, 8, 6, 12, 12, 5, 5, 5, 4}
 	}
 	g.Kind = getKinds[weighted(ch, "getkind", wk...)]
 	switch g.Kind {
@@ -290,6 +316,8 @@ func genGet(ch chooser, profile int, n int) Get {
 		return g
 	case "416":
 		return g
+	case "alt2xx":
+		g.Status = []int{206, 203, 201, 202, 200}[ch.Int(0, 4, "alt2xx")]
 	case "wrong-off":
 		g.Off = []int{1, -1, 2, -2, 7, -7}[ch.Int(0, 5, "off")]
 		g.LieCR = chance(ch, "liecr", 1, 2)
@@ -344,7 +372,7 @@ func genPass(ch chooser, c *Case, idx int, n int) Pass {
 	p.Corr = genCorruption(ch, "corr", n, pNone)
 	p.Chunks = genChunks(ch, n)
 	p.EOFWithData = chance(ch, "eofdata", 1, 3)
-	p.HdrOfServed = chance(ch, "hdrserved", 1, 5)
+	p.HdrKind = []string{"", "served", "none", "malformed", "otheralgo"}[weighted(ch, "hdrkind", 60, 16, 8, 8, 8)]
 	entry := c.Entry
 	if entry == "data" {
 		entry = c.Backing
@@ -376,7 +404,7 @@ func genPass(ch chooser, c *Case, idx int, n int) Pass {
 			}
 		}
 	case "ocidir":
-		p.Replace = []string{"", "rename", "keep"}[weighted(ch, "replace", 70, 20, 10)]
+		p.Replace = []string{"", "rename", "keep"}[weighted(ch, "replace", 55, 28, 17)]
 	}
 	return p
 }
@@ -391,7 +419,7 @@ func gen(ch chooser, set string) Case {
 	c.Entry = entries[ch.Int(0, len(entries)-1, "entry")]
 	c.Algo = []string{"sha256", "sha512"}[weighted(ch, "algo", 65, 35)]
 	c.SizeKnown = !chance(ch, "sizeunknown", 35, 100)
-	c.Mode = []string{"loop", "readall", "copy", "copybuf", "rawbody", "ociconfig", "tar-rawbody", "tar-readfile"}[weighted(ch, "mode", 50, 10, 5, 4, 5, 4, 10, 12)]
+	c.Mode = []string{"loop", "readall", "copy", "copybuf", "rawbody", "ociconfig", "tar-rawbody", "tar-readfile", "tar-walk"}[weighted(ch, "mode", 46, 10, 5, 4, 5, 4, 9, 10, 7)]
 	c.Content = genContent(ch, c.Mode)
 	n := len(expand(c.Content))
 	if c.SizeKnown && chance(ch, "sizelie", 1, 16) {
@@ -439,8 +467,32 @@ func gen(ch chooser, set string) Case {
 	if c.Entry == "reg" || c.Backing == "reg" {
 		c.RetryLimit = []int{3, 1, 2, 4, 6}[weighted(ch, "retry", 40, 5, 15, 22, 18)]
 		c.ReqConcurrent = []int{50, 0, 1, 2}[weighted(ch, "conc", 60, 25, 5, 10)]
-		c.Redirect = chance(ch, "redirect", 1, 6)
+		switch weighted(ch, "topology", 60, 16, 12, 12) {
+		case 1:
+			c.Redirect = true
+			c.RedirectStatus = []int{0, 302, 301, 303, 308}[weighted(ch, "rstatus", 50, 20, 10, 10, 10)]
+		case 2:
+			c.External = 1 + weighted(ch, "nurls", 70, 30)
+		case 3:
+			m := genCorruption(ch, "mirror", n, 40)
+			c.Mirror = &m
+		}
 	}
+	c.MediaType = []string{"application/octet-stream", "", "application/vnd.oci.image.layer.v1.tar+gzip", "application/vnd.oci.image.config.v1+json"}[weighted(ch, "mt", 40, 30, 15, 15)]
+	c.RefForm = weighted(ch, "refform", 55, 15, 15, 15)
+	if c.Entry == "reader" {
+		c.ViaResp = chance(ch, "viaresp", 1, 5)
+		c.TarDirect = strings.HasPrefix(c.Mode, "tar-") && chance(ch, "tardirect", 1, 3)
+	}
+	switch weighted(ch, "cancel", 88, 3, 4, 5) {
+	case 1:
+		c.Cancel = 1
+	case 2:
+		c.Cancel = 2
+	case 3:
+		c.Cancel = 3 + ch.Int(0, 6, "cancelat")
+	}
+	c.BadSeek = c.Mode == "loop" && chance(ch, "badseek", 1, 10)
 	np := 1
 	if !strings.HasPrefix(c.Mode, "tar-") && c.Mode != "ociconfig" {
 		np = 1 + weighted(ch, "npasses", 62, 30, 8)
@@ -471,9 +523,35 @@ func normalise(c *Case) {
 		c.Algo = "sha256"
 	}
 	switch c.Mode {
-	case "loop", "readall", "copy", "copybuf", "rawbody", "ociconfig", "tar-rawbody", "tar-readfile":
+	case "loop", "readall", "copy", "copybuf", "rawbody", "ociconfig", "tar-rawbody", "tar-readfile", "tar-walk":
 	default:
 		c.Mode = "loop"
+	}
+	if c.External < 0 || c.External > 3 {
+		c.External = 0
+	}
+	if c.External > 0 {
+		c.Redirect, c.Mirror = false, nil
+	}
+	if c.Mirror != nil {
+		c.Redirect = false
+	}
+	switch c.RedirectStatus {
+	case 0, 301, 302, 303, 307, 308:
+	default:
+		c.RedirectStatus = 0
+	}
+	if c.RefForm < 0 || c.RefForm > 3 {
+		c.RefForm = 0
+	}
+	if c.Cancel < 0 || c.Cancel > 40 {
+		c.Cancel = 0
+	}
+	if len(c.MediaType) > 100 {
+		c.MediaType = ""
+	}
+	if c.Entry != "reader" {
+		c.ViaResp, c.TarDirect = false, false
 	}
 	if c.Content.N < 0 {
 		c.Content.N = 0
@@ -609,6 +687,22 @@ func expand(c Content) []byte {
 			_, _ = tw.Write(fill(c.Seed+i, f.Size))
 		}
 		_ = tw.Close()
+		switch c.Comp {
+		case "zstd":
+			enc, err := zstd.NewWriter(nil)
+			if err == nil {
+				out := enc.EncodeAll(buf.Bytes(), nil)
+				_ = enc.Close()
+				return out
+			}
+		case "xz":
+			var xb bytes.Buffer
+			if xw, err := (xz.WriterConfig{DictCap: 1 << 16}).NewWriter(&xb); err == nil {
+				_, _ = xw.Write(buf.Bytes())
+				_ = xw.Close()
+				return xb.Bytes()
+			}
+		}
 		if !c.Gzip {
 			return buf.Bytes()
 		}
